@@ -135,7 +135,8 @@ impl Ctx {
         self.watch.cur.store(0, Ordering::SeqCst);
         if let Err(fl) = r {
             let replay = replay();
-            let key = (replay.len(), idx);
+            // value mismatches rank before crashes (a crash is often shared with other properties' searches)
+            let key = (replay.len() + if fl.actual.starts_with("PANIC") { 1_000_000 } else { 0 }, idx);
             // keep only candidates for the three smallest
             if self.tops.len() < MAX_WITNESSES || key < *self.tops.last().unwrap() {
                 self.tops.push(key);
